@@ -196,7 +196,7 @@ def _canon(e, env):
         idx = U(e.slice)
         return {"(..., 0)": ("sym", "x"), "(..., 1)": ("sym", "y"), "(..., 2)": ("sym", "z")}.get(idx, ("?", U(e)))
     if isinstance(e, ast.Name):
-        return ("sym", e.id) if e.id in ("x", "y", "z") else ("?", e.id)
+        return ("?", f"unbound name {e.id}")     # x, y, z exist only once `x, y, z = value.T` has bound them (env)
     if isinstance(e, ast.Call) and call_is(e, "hypot") and len(e.args) == 2:
         parts = []
         for a in e.args:
@@ -304,6 +304,8 @@ def _formulas(ctx, m, cname):
                     probs.append(f"allocation `{at}` not understood")
                 if width is not None and width != len(axes):
                     probs.append(f"result has {width} columns but the class declares {len(axes)} axes {axes}")
+        if U(ret) == "result" and sorted(cols) != list(range(len(axes))):
+            probs.append(f"columns {sorted(cols)} of the result are written, the class has axes 0..{len(axes) - 1}")
         if len(cols) != len(axes):
             probs.append(f"{len(cols)} coordinate column(s) computed for {len(axes)} axis names {axes} (source dimension {src})")
         for k, term in sorted(cols.items()):
@@ -374,6 +376,7 @@ def run(ctx):
     FAC = {"polar": "PolarHistogram", "azimuthal": "AzimuthalHistogram", "radial": "RadialHistogram", "spherical": "SphericalHistogram",
            "spherical_surface": "SphericalSurfaceHistogram", "cylindrical": "CylindricalHistogram", "cylindrical_surface": "CylindricalSurfaceHistogram"}
     wiring.params_used(ctx, "C15.c", [f for f in sh.all_functions if not f.name.startswith("__")], "special_histograms:options-read")
+    wiring.same_name_forwarding(ctx, "C15.c", m, [f for f in sh.all_functions if not f.name.startswith("__")], "special_histograms:options-forwarded")
     wiring.lossy_preallocation(ctx, "C15.c", [sh.functions[f] for f in FAC if f in sh.functions]
                                + [sh.functions[f] for f in ("extract_transformed_data",) if f in sh.functions], "facades:columns-promoted")
     for fname, kname in FAC.items():
